@@ -277,3 +277,42 @@ def make_connector(server_factory, seg_c2s=None, seg_s2c=None, kill_s2c=None, ki
             return cp
 
     return PipeConnector()
+
+
+class RealTimeBudgetExceeded(Exception):
+    pass
+
+
+def run_budgeted(main_factory, obs, seconds=None):
+    """vloop.run(main_factory) under a REAL-time budget: virtual time makes every timeout of the code under
+    test instantaneous, so an exchange that is still running after `seconds` of wall clock is spinning
+    (timers re-arming for ever, a cancelled task that refuses to finish, ...) — that is a stall of the
+    implementation, reported through obs like quiescence, never a hang or crash of the check."""
+    import os, signal
+    from . import vloop
+    if seconds is None:
+        seconds = float(os.environ.get("C02_CASE_BUDGET_S", "90"))
+
+    def on_alarm(signum, frame):
+        raise RealTimeBudgetExceeded(f"exchange still running after {seconds:.0f}s of wall-clock time")
+    try:
+        old = signal.signal(signal.SIGALRM, on_alarm)
+    except ValueError:          # not in the main thread: no budget available
+        old = None
+    if old is not None:
+        signal.setitimer(signal.ITIMER_REAL, seconds)
+    try:
+        _, excs, quiescent = vloop.run(main_factory)
+        obs["quiescent"] = quiescent
+        obs["loop_excs_raw"] = excs
+    except RealTimeBudgetExceeded as e:
+        obs["quiescent"] = True
+        obs["budget_exceeded"] = str(e)
+    except asyncio.CancelledError:
+        obs["quiescent"] = True
+        obs["budget_exceeded"] = "main task cancelled"
+    finally:
+        if old is not None:
+            signal.setitimer(signal.ITIMER_REAL, 0)
+            signal.signal(signal.SIGALRM, old)
+    return obs
